@@ -136,7 +136,7 @@ func (w *World) Exec(a Action) (res string, errStr string) {
 	c := a.C
 	chain := w.ch[c]
 	w.now += a.Dt
-	w.setTick(w.now)
+	w.setTick(c, w.now)
 	var full *Pkt
 	if a.Pkt != nil {
 		full = a.Pkt
@@ -147,8 +147,9 @@ func (w *World) Exec(a Action) (res string, errStr string) {
 	}
 	delete(w.reexport, c)
 	defer func() {
-		w.afterBlock(c, w.now)
+		w.afterBlock(c, w.now+w.skew[c])
 		w.flush(c, res == "ok", full)
+		w.syncClocks()
 	}()
 
 	switch a.A {
@@ -188,6 +189,24 @@ func (w *World) Exec(a Action) (res string, errStr string) {
 			ns, _ = chain.App.GetIBCKeeper().ChannelKeeper.GetNextSequenceSend(chain.GetContext(), w.ep[c].ChannelConfig.PortID, w.ep[c].ChannelID)
 		}
 		w.register(Pkt{Proto: "v2", Src: c, Seq: int64(ns), ToH: 0, ToT: i64(a.ToT), Data: a.Data, Route: "ok"})
+		if a.Direct {
+			var err error
+			func() {
+				defer func() {
+					if r := recover(); r != nil {
+						err = fmt.Errorf("panic: %v", r)
+					}
+				}()
+				if err = msg.ValidateBasic(); err == nil {
+					_, err = chain.App.GetIBCKeeper().ChannelKeeperV2.SendPacket(chain.GetContext(), msg)
+				}
+			}()
+			chain.NextBlock()
+			if err != nil {
+				return "err", err.Error()
+			}
+			return "ok", ""
+		}
 		return w.sendTx(c, msg)
 
 	case "RecvV1":
@@ -340,7 +359,7 @@ func (w *World) freeze(c string) (string, string) {
 		return "err", "no trusted validators"
 	}
 	height := int64(trusted) + 1
-	t1 := w.tickTime(w.now)
+	t1 := w.tickTime(w.now + w.skew[c])
 	h1 := chainO.CreateTMClientHeader(chainO.ChainID, height, trustedH, t1, chainO.Vals, chainO.NextVals, trustedVals, chainO.Signers)
 	h2 := chainO.CreateTMClientHeader(chainO.ChainID, height, trustedH, t1.Add(-1), chainO.Vals, chainO.NextVals, trustedVals, chainO.Signers)
 	mb := &ibctm.Misbehaviour{ClientId: w.clientID(c), Header1: h1, Header2: h2}
